@@ -64,6 +64,8 @@ class Intern:
                 return "i%d" % int(v)
             return "t%d" % self.toks.setdefault(float(v), len(self.toks) + 1)
         if isinstance(v, str):
+            if v == "":
+                return "s0"  # the empty string has the reserved code 0 in the model
             if out and v == "nan" and v not in self.strs:
                 return "n"  # numpy's rendering of an empty cell in a string column
             return "s%d" % self.strs.setdefault(v, len(self.strs) + 1)
@@ -162,9 +164,10 @@ def dyadic(rng):
 # ----------------------------------------------------------------------------- CSV cases
 ID_KINDS = ["contig", "contig0", "sparse", "sparse", "str", "str", "float", "frac", "objint", "Int64"]
 WF_MODES = ["plain"] * 10 + ["legacy", "dupmap", "dupmap", "trk_valid", "trk_valid", "trk_invalid", "ell", "zero_rows",
-                             "unmapped_extra", "multi1", "multi3", "shuffled_rows", "shuffled_rows"]
-DISC_MODES = ["raw_id_clash", "emptystr_int", "unknown_parent_renum", "clash_two_multis", "clash_single_named_as_multicol"]
-MAL_MODES = ["dup_id", "dup_id_renamed", "dup_id_str", "unknown_parent_int", "self_parent_int", "self_parent_renum",
+                             "unmapped_extra", "multi1", "multi3", "shuffled_rows", "shuffled_rows",
+                             "raw_id_clash", "raw_id_clash", "zero_parent", "zero_parent", "zero_leaf", "zero_root"]
+DISC_MODES = ["emptystr_int", "clash_two_multis", "clash_single_named_as_multicol"]
+MAL_MODES = ["dup_id", "dup_id_renamed", "dup_id_str", "unknown_parent_int", "unknown_parent_renum", "self_parent_int", "self_parent_renum",
              "unmapped_time", "unmapped_id", "unmapped_parent", "unmapped_pos", "missing_col_single", "missing_col_multi",
              "missing_col_custom", "pos_one_col", "ell_wrong_len", "pos_single_scalar", "empty_map"]
 
@@ -179,6 +182,9 @@ def gen_csv(rng, mode):
     kind = rng.choice(ID_KINDS)
     if mode in ("unknown_parent_int", "self_parent_int", "dup_id", "dup_id_renamed"):
         kind = rng.choice(["contig", "sparse", "sparse", "Int64"])
+    if mode in ("zero_parent", "zero_leaf", "zero_root"):
+        kind = rng.choice(["sparse", "sparse", "contig0", "Int64"])
+        n = max(n, 3)
     if mode == "emptystr_int":
         kind = rng.choice(["contig", "sparse"])
     if mode in ("dup_id_str",):
@@ -186,6 +192,16 @@ def gen_csv(rng, mode):
     if mode in ("unknown_parent_renum", "self_parent_renum"):
         kind = rng.choice(["str", "float", "frac", "objint"])
     par, times = gen_forest(rng, n)
+    zero_at = None
+    if mode in ("zero_parent", "zero_leaf", "zero_root"):
+        # node id 0 in a given role (an id that is falsy / not > 0): parent of somebody, leaf with a parent, root
+        if all(p is None for p in par):
+            par[n - 1] = 0
+            times[n - 1] = times[0] + 1
+        has_child = {p for p in par if p is not None}
+        cands = {"zero_parent": sorted(has_child), "zero_leaf": [i for i in range(n) if par[i] is not None and i not in has_child],
+                 "zero_root": [i for i in range(n) if par[i] is None]}[mode]
+        zero_at = rng.choice(cands)
     # ids
     if kind == "contig":
         ids = list(range(1, n + 1))
@@ -201,6 +217,11 @@ def gen_csv(rng, mode):
         ids = [x / 2.0 for x in rng.sample(range(1, 80), n)]
         if n and all(float(x).is_integer() for x in ids):
             ids[0] = ids[0] + 0.25 if (ids[0] + 0.25) not in ids else 77.75
+    if zero_at is not None:
+        if 0 in ids:
+            j = ids.index(0)
+            ids[j] = ids[zero_at]
+        ids[zero_at] = 0
     int_typed = kind in ("contig", "contig0", "sparse", "Int64")
     # parent encoding of the roots
     if kind in ("contig", "contig0", "sparse"):
